@@ -25,12 +25,11 @@ func Lookup(id string) sim.Property {
 		return C16{}
 	case "C17":
 		return C17{}
+	case "C01":
+		return C01{}
 	case "C08":
 		return C08{}
 	}
 
 	return nil
 }
-
-// KernelHelperMain is the entry point of the chrooted kernel oracle process.
-func KernelHelperMain() int { return 2 }
